@@ -178,6 +178,9 @@ func genOps(prop string, r *Rng, n int, tier string, emit func(string)) {
 				}
 			}
 		}
+		for i := 0; i < n/12; i++ {
+			emit(genReuseOp(r))
+		}
 		// every prefix of one valid frame per kind; (PT,count) rows behind tiny bodies
 		for _, k := range decKinds {
 			f := validFrame(r, k)
@@ -309,7 +312,10 @@ func genOps(prop string, r *Rng, n int, tier string, emit func(string)) {
 				}
 			}
 		} else {
-			emit(genBigDecvOp(r, 1)) // FIR: the cheapest of the three in the model's list-indexing decoder
+			for i := 0; i < n/20; i++ {
+			emit(genReuseOp(r))
+		}
+		emit(genBigDecvOp(r, 1)) // FIR: the cheapest of the three in the model's list-indexing decoder
 		}
 		{ // an APP packet of 262144 octets: length field 0xFFFF
 			v := &rtcp.ApplicationDefined{SubType: uint8(r.Bits(5, 5)), SSRC: uint32(r.U64()), Name: string(r.Bytes(4)), Data: r.Bytes(262144 - 12)}
@@ -720,6 +726,9 @@ func genOps(prop string, r *Rng, n int, tier string, emit func(string)) {
 			if r.Chance(1, 5) {
 				emit(genHoldOp(r))
 			}
+			if r.Chance(1, 4) {
+				emit(genReuseOp(r))
+			}
 		}
 	default:
 		panic("unknown property " + prop)
@@ -855,4 +864,44 @@ func genHoldOp(r *Rng) string {
 		k = holdKinds[r.Intn(len(holdKinds))]
 	}
 	return "hold." + k + " " + one(k) + " | " + one(k)
+}
+
+// decode twice into one receiver: the second result must not depend on the first input
+func genReuseOp(r *Rng) string {
+	kinds := append(append([]string{}, decKinds...), "CHUNK", "SVC", "RLC", "ITEM", "RREP", "HDR", "DELTA", "COMPOUND")
+	k := kinds[r.Intn(len(kinds))]
+	in := func() []byte {
+		switch k {
+		case "CHUNK":
+			b := genSdesBytes(r)
+			if len(b) >= 4 {
+				b = b[4:]
+			}
+			return b
+		case "SVC", "RLC":
+			b := r.Bytes(2)
+			if k == "SVC" {
+				b[0] |= 0x80
+			}
+			return b
+		case "ITEM":
+			t := r.Bytes(r.Len(6))
+			return append([]byte{byte(1 + r.Intn(8)), byte(len(t))}, t...)
+		case "RREP":
+			return r.Bytes(24)
+		case "HDR":
+			b := r.Bytes(4)
+			b[0] = b[0]&0x3f | 0x80
+			return b
+		case "DELTA":
+			return r.Bytes(1 + r.Intn(2))
+		case "COMPOUND":
+			return genDatagram(r)
+		}
+		if r.Chance(3, 4) {
+			return validFrame(r, k)
+		}
+		return genDecodeInput(r, k)
+	}
+	return "reuse." + k + " " + hx(in()) + " " + hx(in())
 }
